@@ -116,7 +116,7 @@ def build_cases(ctx: lib.Ctx, prop: str):
         cases.append(c)
     sweep = G.instr_sweep(ctx.rng, ctx.thorough)
     if not ctx.thorough:   # the quick tier runs a seeded 55% sample of the sweep
-        sweep = [c for c in sweep if ctx.rng.random() < 0.55]
+        sweep = [c for c in sweep if c.get('must') or ctx.rng.random() < 0.55]
     cases.extend(sweep)
     n = ctx.n(700, 14000)
     max_size = ctx.n(12, 40)
@@ -157,7 +157,7 @@ RULE = ('type-directed generator (harness/c01_gen.py): 0-4 typed input values (b
         '(thorough) instructions built stack-type-directedly over the whole fragment, incl. DIP/DIG/DUG/DUP/DROP n at '
         'depths 0..len, nested control flow, counted LOOPs, LOOP_LEFT, ITER/MAP bodies with conversion code; half of '
         'the programs allow type-changing MAP bodies (guarded by IF_CONS so the list is non-empty); a stream in '
-        'the known-finding class; REPL sessions of 2-5 cells on one Interpreter where ~45% of the cells fail (FAILWITH or '
+        'the known-finding class; an oracle-only stream for BLAKE2B/SHA256/SHA512/SHA3/KECCAK on block-boundary lengths; REPL sessions of 2-5 cells on one Interpreter where ~45% of the cells fail (FAILWITH or '
         'run-time error inside DIP n / nested DIP / ITER / MAP / LOOP bodies) and every cell observes outcome, session stack '
         'and `protected`; a systematic per-instruction sweep (every overload of the arithmetic/logic/compare '
         'instructions on boundary operands incl. zero divisors, COMPARE on every comparable shape with near-equal operands, '
@@ -403,6 +403,8 @@ def run(ctx: lib.Ctx) -> None:
                     'disagreements': len(bad_a) + len(cbad_a), 'failwith_repr_mismatch': len(bad_m)})
         ctx.violation('implementation no longer corresponds to the model the theorems are about', doc, found=False)
     opcode_vectors(ctx)
+    import c01_hash
+    c01_hash.run(ctx)
 
 
 def opcode_vectors(ctx: lib.Ctx) -> None:
